@@ -64,6 +64,7 @@ pub fn model_normalize(c: char) -> char {
         'É' => 'E',
         '²' => '2',
         'ſ' => 's',
+        'ß' => 's',
         'à' => 'a',
         _ => c,
     }
